@@ -25,6 +25,20 @@ Sources and accepted idioms (anything else raises TranslateError = broken tie):
                         _vnacal_new_check_parameter(function, vnp, s_matrix[s_cell]) precedes it and the
                         _vnacal_new_err_need_full_s test lies between the two (repair of D17)
 
+  src/vnacal_new_parameter.c
+                        _vnacal_new_check_parameter and _vnacal_new_get_parameter: declarations, then - in this order -
+                          if (parameter >= 0 && hash_lookup(...) != NULL) return <found>;
+                          if ((vpmrp = _vnacal_get_parameter(vcp, parameter)) == NULL) { _vnacal_error(USAGE); return <fail>; }
+                          if (vnp->vn_frequencies_valid && vnp->vn_frequencies > 0) { if (check_single_frequency_range(function,
+                              vnp, vnp->vn_frequency_vector[0], vnp->vn_frequency_vector[vnp->vn_frequencies - 1], vpmrp) == -1)
+                              return <fail>; }
+                          [ if (<type of vpmrp> == VNACAL_CORRELATED) { the function calls ITSELF on
+                              VNACAL_GET_PARAMETER_INDEX(VNACAL_GET_PARAMETER_OTHER(vpmrp)) and fails when that fails } ]
+                        then "return 0;" (check: nothing else, in particular no insertion) / the allocation and hash_insert (get).
+                        gen_check_parameter_recurses / gen_get_parameter_recurses = the bracketed statement is there
+                        (seeded change C11-4 removes it from the check: the validation pass of _vnacal_new_add_common
+                        then no longer sees an invalid correlate)
+
   src/vnacal_internal.h  #define VNACAL_F_EXTRAPOLATION <decimal>, #define VNACAL_PREDEFINED_PARAMETERS <n>
   clean-up paths         the calls made after a failure has been reported, before the function returns:
                         vnadata_save.c "out:", vnacal_save.c "error:", vnacal_load.c "error:" (label to the end of
@@ -226,6 +240,86 @@ def parse_add_common(srcdir):
     return checks[0] < need[0] < gets[0]
 
 
+def parse_new_parameter(srcdir):
+    """-> (the validation _vnacal_new_check_parameter walks down to the correlate, _vnacal_new_get_parameter does)."""
+    path = "vnacal_new_parameter.c"
+    t = errno_orders.strip(read(os.path.join(srcdir, path)))
+
+    def norm(s):
+        return re.sub(r"\s+", "", s)
+
+    RANGE = ("{if(check_single_frequency_range(function,vnp,vnp->vn_frequency_vector[0],"
+             "vnp->vn_frequency_vector[vnp->vn_frequencies-1],vpmrp)==-1){%s}}")
+    out = []
+    for fn, fail, found_ok in (("_vnacal_new_check_parameter", "return-1;", ("return0;",)),
+                               ("_vnacal_new_get_parameter", "returnNULL;", ("returnvnprp;",))):
+        try:
+            params, body = errno_orders.function_body(t, fn, path)
+            sts = errno_orders.statements(body)
+        except errno_orders.OrderError as e:
+            raise TranslateError("%s: %s" % (path, e))
+        if norm(params) != "constchar*function,vnacal_new_t*vnp,intparameter":
+            raise TranslateError("%s: parameters of %s changed" % (path, fn))
+        k = 0
+        # declarations (no calls)
+        while k < len(sts) and sts[k]["kind"] == "simple" and re.match(
+                r"(const\s+)?(vnacal(_\w+)?_t|int|double|bool)\b[^()]*;$", sts[k]["text"].strip(), flags=re.S):
+            k += 1
+
+        def want_if(st, what):
+            if st is None or st["kind"] != "if" or st["else"]:
+                raise TranslateError("%s: %s: expected the %s test, found %r" % (path, fn, what, (st or {}).get("text", "end")[:80]))
+            return norm(st["cond"]), norm(st["body"][0]["text"]) if st["body"] else ""
+
+        def nxt():
+            return sts[k] if k < len(sts) else None
+        cond, b = want_if(nxt(), "hash look-up")
+        if not re.match(r"parameter>=0&&\(?(vnprp=)?hash_lookup\((&vnp->vn_parameter_hash|vnphp),parameter\)\)?!=NULL$", cond) \
+                or b.strip("{}") not in found_ok:
+            raise TranslateError("%s: %s: hash look-up is not the accepted one" % (path, fn))
+        k += 1
+        cond, b = want_if(nxt(), "_vnacal_get_parameter")
+        if cond != "(vpmrp=_vnacal_get_parameter(vcp,parameter))==NULL" or not re.match(
+                r"\{_vnacal_error\(vcp,VNAERR_USAGE,[^;]*\);%s\}$" % re.escape(fail), b):
+            raise TranslateError("%s: %s: the test of _vnacal_get_parameter is not the accepted one" % (path, fn))
+        k += 1
+        if nxt() is not None and norm(nxt()["text"]) == "type=VNACAL_GET_PARAMETER_TYPE(vpmrp);":
+            k += 1
+        cond, b = want_if(nxt(), "frequency range")
+        if cond != "vnp->vn_frequencies_valid&&vnp->vn_frequencies>0" or b != RANGE % fail:
+            raise TranslateError("%s: %s: the frequency-range test is not the accepted one" % (path, fn))
+        k += 1
+        recurses = False
+        st = nxt()
+        if st is not None and st["kind"] == "if" and re.match(
+                r"(VNACAL_GET_PARAMETER_TYPE\(vpmrp\)|type)==VNACAL_CORRELATED$", norm(st["cond"])) and not st["else"]:
+            b = norm(st["body"][0]["text"])
+            call = "%s(function,vnp,VNACAL_GET_PARAMETER_INDEX(vpmrp_correlate))" % fn
+            if "vpmrp_correlate=VNACAL_GET_PARAMETER_OTHER(vpmrp);" in b and call in b:
+                if fn == "_vnacal_new_check_parameter":
+                    ok = b.endswith("return" + call + ";}")
+                else:
+                    ok = re.search(r"if\(\(ncprp_correlate=%s\)==NULL\)\{(free\(\(void\*\)vnprp\);)?returnNULL;\}\}$"
+                                   % re.escape(call), b) is not None
+                if not ok:
+                    raise TranslateError("%s: %s: a failure of the recursion on the correlate is not passed on" % (path, fn))
+                recurses = True
+                k += 1
+        rest = norm("".join(s["text"] for s in sts[k:]))
+        if fn == "_vnacal_new_check_parameter":
+            if rest != "return0;":
+                raise TranslateError("%s: %s: unexpected statements after the tests: %r" % (path, fn, rest[:80]))
+        else:
+            head = norm("".join(s["text"] for s in sts[:k]))
+            if "hash_insert(" in head or "malloc(" in head or "hash_insert(vnphp,vnprp);" not in rest \
+                    or fn + "(" in rest or "VNACAL_CORRELATED" in head.replace("type==VNACAL_CORRELATED", "") and not recurses:
+                raise TranslateError("%s: %s: insertion is not where expected" % (path, fn))
+            if fn + "(" in rest:
+                raise TranslateError("%s: %s: recursion outside the accepted place" % (path, fn))
+        out.append(recurses)
+    return tuple(out)
+
+
 def parse_constants(srcdir):
     from fractions import Fraction
     t = strip_comments(read(os.path.join(srcdir, "vnacal_internal.h")))
@@ -281,6 +375,7 @@ def translate(srcdir):
     man = parse_man_table(read(os.path.join(srcdir, "vnaerr.3")))
     z0 = parse_z0_bounds(srcdir)
     pre = parse_add_common(srcdir)
+    check_rec, get_rec = parse_new_parameter(srcdir)
     extrap, predefined = parse_constants(srcdir)
     cleanup = parse_cleanup(srcdir)
     try:
@@ -298,7 +393,8 @@ def translate(srcdir):
         if c not in full:
             raise TranslateError("vnaerr.h: category VNAERR_%s of the manual is not in the enum" % c)
     return {"enum": enum, "table": full, "explicit": sorted(table), "default": default, "man": man, "z0": z0,
-            "add_common_prevalidates": pre, "extrapolation": extrap, "predefined": predefined, "cleanup": cleanup,
+            "add_common_prevalidates": pre, "check_parameter_recurses": check_rec, "get_parameter_recurses": get_rec,
+            "extrapolation": extrap, "predefined": predefined, "cleanup": cleanup,
             "orders": orders["orders"], "handles": orders["handles"], "order_notes": orders["notes"],
             "query_getters_readonly": orders["getters"], "add_wrappers": orders["add_wrappers"],
             "orders_digest": errno_orders.digest(orders)}
@@ -348,6 +444,12 @@ def emit(info):
     L.append("(* _vnacal_new_add_common: true when every parameter of the S matrix is validated, and the remaining")
     L.append("   argument checks are made, before any parameter is added to the vnacal_new_t (repair of D17) *)")
     L.append("Definition gen_add_common_prevalidates : bool := %s." % ("true" if info["add_common_prevalidates"] else "false"))
+    L.append("")
+    L.append("(* vnacal_new_parameter.c: true when the function, given a VNACAL_CORRELATED parameter, calls itself on the")
+    L.append("   correlate (and fails when that fails) after its own tests: _vnacal_new_check_parameter (the validation pass),")
+    L.append("   _vnacal_new_get_parameter (the registration) *)")
+    L.append("Definition gen_check_parameter_recurses : bool := %s." % ("true" if info["check_parameter_recurses"] else "false"))
+    L.append("Definition gen_get_parameter_recurses : bool := %s." % ("true" if info["get_parameter_recurses"] else "false"))
     L.append("")
     L.append("(* vnacal_internal.h *)")
     L.append("Definition gen_f_extrapolation : Q := (%d # %d)%%Q." % (info["extrapolation"].numerator, info["extrapolation"].denominator))
